@@ -25,6 +25,36 @@ checks = {
    ref="7/C13"),
 }
 
+
+FL_NOTE = "Trusted: harness projection/concretization (round-trip self-checked per case), membership in W by construction of the generator, TLC/SANY/Json module, go-openapi/spec (loader, ExpandSpec) as environment. Bounds: quick 60 bundles x 6-8 option sets (schema depth <= 3, <= 5 root definitions, <= 3 auxiliary documents); thorough 700 bundles."
+FL_TECH = "TLA+ predicates (FlattenProps.tla over RefSem.tla bisimulation / Swagger.tla typing) evaluated by TLC on states recorded from the real Flatten (Trace_Flatten): initial bundle, rewritten document, outcome, second pass, analyzer state"
+checks.update({
+ "C01": dict(technique=FL_TECH + "; C01 = bisimilarity of the $ref-unfolded trees section by section and definition by definition",
+   text="model_checking (trace validation): for every generated bundle of W and every option set the real Flatten is run; TLC decides SameMeaning (reachable-pairs bisimulation of the $ref-unfolded documents) for paths and every other top-level member, the shared sections (unless RemoveUnused), and every pre-existing definition, plus 'only definitions are added' and 'x-go-gen-location only on new definitions'.",
+   note=FL_NOTE, ref="7/C01"),
+ "C02": dict(technique=FL_TECH + "; C02 = every $ref holder is schema-typed and every $ref is <<root, definitions, n>> with n defined",
+   text="model_checking (trace validation): on every successful minimal/full run TLC types every $ref holder of the output with the position grammar and checks the canonical form of every $ref after URL- and pointer-unescaping.",
+   note=FL_NOTE, ref="7/C02"),
+ "C03": dict(technique=FL_TECH + "; C03 = no inline complex schema at a schema-typed position below the top level + case-insensitive uniqueness of created names",
+   text="model_checking (trace validation): on every successful full run TLC enumerates the schema-typed positions of the output and checks none holds an object-with-properties / allOf / tuple inline, and that every created name differs from every other definition name up to letter case (fold classes computed with strings.EqualFold).",
+   note=FL_NOTE, ref="7/C03"),
+ "C04": dict(technique=FL_TECH + "; C04 = outcome ok for every (bundle of W, option set)",
+   text="model_checking (trace validation): Flatten must return nil on every generated bundle of W under every option set (crashes and time-outs, confirmed in a fresh process, count as failures).",
+   note=FL_NOTE, ref="7/C04"),
+ "C05": dict(technique=FL_TECH + "; C05 = remaining $refs canonical, C01, no $ref at all when the bundle's $ref graph (HasCycle in RefSem.tla) is acyclic, bytes equal on re-run",
+   text="model_checking (trace validation): on every successful Expand run TLC computes the $ref graph of the input bundle and requires an output without any $ref when it is acyclic, canonical targets otherwise, C01, and byte-identical output of a second run from the files.",
+   note=FL_NOTE, ref="7/C05"),
+ "C06": dict(technique=FL_TECH + "; C06 = shared sections empty, every definition targeted, no dangling $ref, paths bisimilar",
+   text="model_checking (trace validation): on every successful run with RemoveUnused TLC checks the four clauses on the output; names range over the whole alphabet, used and unused, including chains that become unused.",
+   note=FL_NOTE, ref="7/C06"),
+ "C08": dict(technique=FL_TECH + "; C08 = second Flatten of the serialized output succeeds and leaves tree and bytes unchanged",
+   text="model_checking (trace validation): every successful minimal/full run is serialized, reloaded and flattened again with the same options; TLC requires success and an identical tree (and the harness logs byte equality).",
+   note=FL_NOTE, ref="7/C08"),
+ "C10": dict(technique=FL_TECH + "; C10 = recorded answers of every getter of the passed-in Spec equal those of analysis.New(document)",
+   text="model_checking (trace validation): after every successful run all index getters (references by kind, patterns, enums, schemas with resolution through the library, allOfs), operations, ids, media types and paths of the Spec handed to Flatten are recorded next to those of a fresh analysis; TLC requires equality.",
+   note=FL_NOTE, ref="7/C10"),
+})
+
 def check_entry(pid, c):
     return {
         "property_id": pid,
